@@ -375,14 +375,14 @@ package isobmff
 //@ func readCMTBox
 //@   props C01 C02 C11
 //@   requires wf2(b)
-//@   modifies stream(b.reader.br), b.remain, b.outer.remain, b.outer.outer.remain, b.reader.offset
+//@   modifies stream(b.reader.br), b.remain, b.outer.remain, b.outer.outer.remain, b.reader.offset, foreign
 //@   ensures remOK(b) && pos(b.reader.br) >= old(pos(b.reader.br)) && noInc(b) && charged(b)
 
 
 //@ func readCrxMoovBox
 //@   props C01 C02 C11
 //@   requires wf1(b)
-//@   modifies stream(b.reader.br), b.remain, b.outer.remain, b.outer.outer.remain, b.reader.offset
+//@   modifies stream(b.reader.br), b.remain, b.outer.remain, b.outer.outer.remain, b.reader.offset, foreign
 //@   ensures remOK(b) && pos(b.reader.br) >= old(pos(b.reader.br)) && noInc(b) && charged(b)
 //@   loop 0 invariant remOK(b) && pos(b.reader.br) >= old(pos(b.reader.br)) && noInc(b) && charged(b)
 //@   loop 0 invariant ok && err == nil ==> inner.outer == b && inner.reader == b.reader && inner.remain >= 0
@@ -400,21 +400,21 @@ package isobmff
 //@ func (*Reader).readPreview
 //@   props C01 C02 C11
 //@   requires wf1(b)
-//@   modifies stream(b.reader.br), b.remain, b.outer.remain, b.outer.outer.remain, b.reader.offset, r.prvw
+//@   modifies stream(b.reader.br), b.remain, b.outer.remain, b.outer.outer.remain, b.reader.offset, r.prvw, foreign
 //@   ensures remOK(b) && pos(b.reader.br) >= old(pos(b.reader.br)) && noInc(b) && charged(b)
 
 
 //@ func (*Reader).readUUIDBox
 //@   props C01 C02 C11
 //@   requires wf1(b)
-//@   modifies stream(b.reader.br), b.remain, b.outer.remain, b.outer.outer.remain, b.reader.offset, r.prvw
+//@   modifies stream(b.reader.br), b.remain, b.outer.remain, b.outer.outer.remain, b.reader.offset, r.prvw, foreign
 //@   ensures remOK(b) && pos(b.reader.br) >= old(pos(b.reader.br)) && noInc(b) && charged(b)
 
 
 //@ func (*Reader).readMeta
 //@   props C01 C02 C11
 //@   requires wf0(b)
-//@   modifies stream(b.reader.br), b.remain, b.outer.remain, b.outer.outer.remain, b.reader.offset, box.flags, r.heic, r.prvw
+//@   modifies stream(b.reader.br), b.remain, b.outer.remain, b.outer.outer.remain, b.reader.offset, box.flags, r.heic, r.prvw, foreign
 //@   ensures remOK(b) && pos(b.reader.br) >= old(pos(b.reader.br)) && noInc(b) && charged(b)
 //@   loop 0 invariant remOK(b) && pos(b.reader.br) >= old(pos(b.reader.br)) && noInc(b) && charged(b)
 //@   loop 0 invariant ok && err == nil ==> inner.outer == b && inner.reader == b.reader && inner.remain >= 0
@@ -424,7 +424,7 @@ package isobmff
 //@ func (*Reader).readMoovBox
 //@   props C01 C02 C11
 //@   requires wf0(b)
-//@   modifies stream(b.reader.br), b.remain, b.outer.remain, b.outer.outer.remain, b.reader.offset, r.prvw
+//@   modifies stream(b.reader.br), b.remain, b.outer.remain, b.outer.outer.remain, b.reader.offset, r.prvw, foreign
 //@   ensures remOK(b) && pos(b.reader.br) >= old(pos(b.reader.br)) && noInc(b) && charged(b)
 //@   loop 0 invariant remOK(b) && pos(b.reader.br) >= old(pos(b.reader.br)) && noInc(b) && charged(b)
 //@   loop 0 invariant ok && err == nil ==> inner.outer == b && inner.reader == b.reader && inner.remain >= 0
@@ -442,16 +442,18 @@ package isobmff
 //@ func (*Reader).readMdat
 //@   props C01 C02 C11
 //@   requires wf1(b)
-//@   modifies stream(b.reader.br), b.remain, b.outer.remain, b.outer.outer.remain, b.reader.offset
+//@   modifies stream(b.reader.br), b.remain, b.outer.remain, b.outer.outer.remain, b.reader.offset, foreign
 //@   ensures remOK(b) && pos(b.reader.br) >= old(pos(b.reader.br)) && noInc(b) && charged(b)
 
 
-// Callbacks receive a box as their reader. ASSUMED: a callback acts on it only through the box's own Peek/Discard/Read
-// (whose contracts keep the chain intact) - that is what the library's Exif reader, XMP parser and preview renderer do.
+// Callbacks receive a box as their reader. A callback lives in another package: it may change anything that is not
+// isobmff's own (`foreign`), and can act on the box only through its exported methods Peek/Discard/Read - whose
+// contracts keep the chain intact, never let a remaining length grow and never move a box's end outwards. That summary
+// of "any sequence of Peek/Discard/Read calls" is the ASSUMED part of the callback contract.
 //@ dep callback isobmff.Reader.ExifReader
 //@   names r h -> err
 //@   requires [C11] wf2(as(r, "*isobmff.box"))
-//@   modifies stream(as(r, "*isobmff.box").reader.br), as(r, "*isobmff.box").remain, as(r, "*isobmff.box").outer.remain, as(r, "*isobmff.box").outer.outer.remain, as(r, "*isobmff.box").reader.offset
+//@   modifies stream(as(r, "*isobmff.box").reader.br), as(r, "*isobmff.box").remain, as(r, "*isobmff.box").outer.remain, as(r, "*isobmff.box").outer.outer.remain, as(r, "*isobmff.box").reader.offset, foreign(isobmff)
 //@   ensures remOK(as(r, "*isobmff.box")) && pos(as(r, "*isobmff.box").reader.br) >= old(pos(as(r, "*isobmff.box").reader.br)) && noInc(as(r, "*isobmff.box")) && charged(as(r, "*isobmff.box"))
 
 // the CR3 readers receive Reader.ExifReader as a parameter and pass it on unchanged
@@ -461,13 +463,13 @@ package isobmff
 //@ dep callback isobmff.Reader.XMPReader
 //@   names r -> err
 //@   requires [C11] wf2(as(r, "*isobmff.box"))
-//@   modifies stream(as(r, "*isobmff.box").reader.br), as(r, "*isobmff.box").remain, as(r, "*isobmff.box").outer.remain, as(r, "*isobmff.box").outer.outer.remain, as(r, "*isobmff.box").reader.offset
+//@   modifies stream(as(r, "*isobmff.box").reader.br), as(r, "*isobmff.box").remain, as(r, "*isobmff.box").outer.remain, as(r, "*isobmff.box").outer.outer.remain, as(r, "*isobmff.box").reader.offset, foreign(isobmff)
 //@   ensures remOK(as(r, "*isobmff.box")) && pos(as(r, "*isobmff.box").reader.br) >= old(pos(as(r, "*isobmff.box").reader.br)) && noInc(as(r, "*isobmff.box")) && charged(as(r, "*isobmff.box"))
 
 //@ dep callback isobmff.Reader.PreviewImageReader
 //@   names r h -> err
 //@   requires [C11] wf2(as(r, "*isobmff.box"))
-//@   modifies stream(as(r, "*isobmff.box").reader.br), as(r, "*isobmff.box").remain, as(r, "*isobmff.box").outer.remain, as(r, "*isobmff.box").outer.outer.remain, as(r, "*isobmff.box").reader.offset
+//@   modifies stream(as(r, "*isobmff.box").reader.br), as(r, "*isobmff.box").remain, as(r, "*isobmff.box").outer.remain, as(r, "*isobmff.box").outer.outer.remain, as(r, "*isobmff.box").reader.offset, foreign(isobmff)
 //@   ensures remOK(as(r, "*isobmff.box")) && pos(as(r, "*isobmff.box").reader.br) >= old(pos(as(r, "*isobmff.box").reader.br)) && noInc(as(r, "*isobmff.box")) && charged(as(r, "*isobmff.box"))
 
 //@ func (*Reader).reset
@@ -476,13 +478,15 @@ package isobmff
 
 //@ func (*Reader).ReadFTYP
 //@   props C01 C02 C11
-//@   entry
 //@   requires r.br != nil
+//@   modifies stream(r.br), r.offset, r.ftyp
+//@   ensures pos(r.br) >= old(pos(r.br))
 
 //@ func (*Reader).ReadMetadata
 //@   props C01 C02 C11
-//@   entry
 //@   requires r.br != nil
+//@   modifies stream(r.br), r.offset, r.heic, r.prvw, box.flags, foreign
+//@   ensures pos(r.br) >= old(pos(r.br))
 
 //@ func NewReader
 //@   props C01
